@@ -13,6 +13,8 @@ import (
 	"sort"
 	"strings"
 	"time"
+
+	"golang.org/x/tools/go/ssa"
 )
 
 type options struct {
@@ -93,7 +95,11 @@ func main() {
 			if len(rest) > 0 && !strings.Contains(p.FuncKey(fn), rest[0]) {
 				continue
 			}
-			g := BuildGCNF(p, e, fn)
+			opts := BuildOpts{}
+			if re := os.Getenv("GCNF_INLINE"); re != "" { // debug: additionally expand callees whose key contains this substring
+				opts.Inline = func(callee *ssa.Function) bool { return strings.Contains(p.FuncKey(callee), re) }
+			}
+			g := BuildGCNFOpts(p, e, fn, opts)
 			fmt.Printf("%s  (%d paths, %d cut points) %s\n", p.FuncKey(fn), g.NumPaths, len(g.Cuts), g.Undecided)
 			for _, s := range g.Strings() {
 				fmt.Println("   ", s)
@@ -104,10 +110,8 @@ func main() {
 	case "symbols":
 		// the pinned symbol table (checker/symbols_pinned.txt): every named library function of the tree
 		p := Load(opts.repo)
-		for _, fn := range p.Funcs {
-			if fn.Parent() == nil && fn.Synthetic == "" {
-				fmt.Println(p.FuncKey(fn))
-			}
+		for _, l := range p.symbolLines() {
+			fmt.Println(l)
 		}
 	case "tables":
 		p := Load(opts.repo)
